@@ -678,6 +678,10 @@ func (p *Parser) parseInsertStmt() ast.Statement {
 	if hasBody {
 		p.nextToken() // skip ")"
 		stmt.Block = p.parseBlockStmt()
+
+		if !p.expectPeek(token.END) { // move to "@end"
+			return nil
+		}
 	}
 
 	p.inserts[stmt.Name.Value] = stmt
